@@ -3,7 +3,8 @@
 # (confirmation: applies, builds, 41 tests pass, demo shows misbehaviour; then runs the property's check(s) against the worktree).
 PID=$1; M=$2; shift 2; CHECKS=${@:-$PID}
 WT=/tmp/seed_$PID; SRC=$WT/_seed/$M; DST=/verif/seeded/$PID-$M
-mkdir -p $DST && cp -r $SRC/. $DST/ || exit 2
+mkdir -p $DST
+[ -d $SRC ] && { cp -r $SRC/. $DST/ || exit 2; }   # already collected seeds are taken from /verif/seeded
 cd $WT && git checkout -q -- . && git apply $DST/patch.diff || { echo "patch does not apply"; exit 2; }
 {
   echo "== build"; cmake --build _build -j8 2>&1 | tail -1
